@@ -182,6 +182,9 @@ func drawDialectModel(t *rapid.T, idx int) XDialect {
 			}
 			e.Desc = drawDesc(t, "edesc")
 			nent := rapid.IntRange(1, 6).Draw(t, "nentries")
+			if e.Bitmask && rapid.IntRange(0, 9).Draw(t, "many_flags") == 0 {
+				nent = rapid.IntRange(30, 50).Draw(t, "nentries_many") // the text of all flags together is well over a kilobyte
+			}
 			// ordinary enums that merely look like flag sets (all values powers of two) stay ordinary
 			flagLike := !e.Bitmask && rapid.IntRange(0, 4).Draw(t, "flag_like") == 0
 			// an ordinary enum whose values are exactly 0..n-1, listed in any order (definitions are not sorted, and
